@@ -1,4 +1,5 @@
 import ArrProofs.Lemmas.C06Move
+import ArrProofs.Lemmas.GenCoreAxis
 /-!
 # C06 — axis permutations move each element to the permuted coordinate, nothing else
 
@@ -510,5 +511,63 @@ example : (⟨List.range 6, [2, 3]⟩ : Arr Nat).moveaxis 0 [0, -2] [1, 0] = .er
 example : (⟨List.range 6, [2, 3]⟩ : Arr Nat).moveaxis 0 [0, 1] [1] = .err .MustBeEqual := by decide
 example : ∃ e, (⟨List.range 6, [2, 3]⟩ : Arr Nat).moveaxis 0 [5] [0] = .err e :=
   moveaxis_rejects_source_range _ _ _ _ ⟨5, by decide, by decide⟩
+
+/-! ## The same properties for the code as TRANSLATED FROM THE SOURCE
+
+`ArrModel.Gen.Core.Array_moveaxis`, `Array_rollaxis`, `Array_swapaxes` are regenerated from `src/core/operations/axis.rs` by
+`tools/rs2lean.py` on every run.  `transpose` itself is outside the translated subset; the generated definitions take it as a
+parameter, instantiated here with the hand-written `Arr.transpose zero` (the model of the theorems above).
+`ArrProofs/Lemmas/GenCoreAxis.lean` proves the generated definitions equal to the hand-written ones for all inputs. -/
+
+open ArrModel.Gen.Core in
+/-- **moveaxis (translated source)**: on a well-formed array with distinct in-range sources the result has the shape permuted by the
+constructed order, and every element moves to the permuted coordinate -/
+theorem gen_moveaxis_spec (a : Arr α) (zero : α) (src dst : List Int) (hwf : a.WF)
+    (h1 : src.Nodup) (h2 : src.length = dst.length)
+    (h3 : (src.map (normalizeAxis a.ndim)).Nodup) (h4 : (dst.map (normalizeAxis a.ndim)).Nodup)
+    (h5 : ∀ x ∈ src.map (normalizeAxis a.ndim), x < a.ndim)
+    (o : List Nat) (ho : o = moveaxisOrder a.ndim (src.map (normalizeAxis a.ndim)) (dst.map (normalizeAxis a.ndim))) :
+    ∃ r, Array_moveaxis (fun x ax => x.transpose zero ax) a src dst = .ok r ∧ r.shape = permute o a.shape ∧ r.WF ∧
+      ∀ c, inRange a.shape c = true → r.get? (permute o c) = a.get? c := by
+  rw [moveaxis_eq]; exact moveaxis_spec a zero src dst hwf h1 h2 h3 h4 h5 o ho
+
+open ArrModel.Gen.Core in
+/-- a repeated source / destination axis or lists of different lengths are refused with an error -/
+theorem gen_moveaxis_rejects (a : Arr α) (zero : α) (src dst : List Int)
+    (h : ¬ (src.Nodup ∧ src.length = dst.length ∧
+      (src.map (normalizeAxis a.ndim)).Nodup ∧ (dst.map (normalizeAxis a.ndim)).Nodup)) :
+    ∃ e, Array_moveaxis (fun x ax => x.transpose zero ax) a src dst = .err e := by
+  rw [moveaxis_eq]; exact moveaxis_rejects a zero src dst h
+
+open ArrModel.Gen.Core in
+theorem gen_moveaxis_never_panics (a : Arr α) (zero : α) (src dst : List Int) :
+    Array_moveaxis (fun x ax => x.transpose zero ax) a src dst ≠ .panic := by
+  rw [moveaxis_eq]; exact moveaxis_never_panics a zero src dst
+
+open ArrModel.Gen.Core in
+/-- **rollaxis (translated source)** is the transposition by `rollaxisOrder` for in-range arguments … -/
+theorem gen_rollaxis_eq_transpose (a : Arr α) (zero : α) (axis : Int) (start : Option Int)
+    (h1 : normalizeAxis a.ndim axis < a.ndim) (h2 : startOf a.ndim start < a.ndim) :
+    Array_rollaxis (fun x ax => x.transpose zero ax) a axis start =
+      a.transpose zero (some ((rollaxisOrder a.ndim (normalizeAxis a.ndim axis) (startOf a.ndim start)).map Int.ofNat)) := by
+  rw [rollaxis_eq]; exact rollaxis_eq_transpose a zero axis start h1 h2
+
+open ArrModel.Gen.Core in
+/-- **swapaxes (translated source)** is the transposition by `swapOrder` for in-range axes, and refuses the others -/
+theorem gen_swapaxes_eq_transpose (a : Arr α) (zero : α) (ax1 ax2 : Int)
+    (h1 : normalizeAxis a.ndim ax1 < a.ndim) (h2 : normalizeAxis a.ndim ax2 < a.ndim) :
+    Array_swapaxes (fun x ax => x.transpose zero ax) a ax1 ax2 =
+      a.transpose zero (some ((swapOrder a.ndim (normalizeAxis a.ndim ax1) (normalizeAxis a.ndim ax2)).map Int.ofNat)) := by
+  rw [swapaxes_eq]; exact swapaxes_eq_transpose a zero ax1 ax2 h1 h2
+
+open ArrModel.Gen.Core in
+theorem gen_swapaxes_rejects (a : Arr α) (zero : α) (ax1 ax2 : Int)
+    (h : ¬ (normalizeAxis a.ndim ax1 < a.ndim ∧ normalizeAxis a.ndim ax2 < a.ndim)) :
+    Array_swapaxes (fun x ax => x.transpose zero ax) a ax1 ax2 = .err .AxisOutOfBounds := by
+  rw [swapaxes_eq]; exact swapaxes_rejects a zero ax1 ax2 h
+
+example : ArrModel.Gen.Core.Array_moveaxis (fun x ax => x.transpose 0 ax) (⟨List.range 6, [2, 3]⟩ : Arr Nat) [0, 1] [1] = .err .MustBeEqual := by decide
+example : ArrModel.Gen.Core.Array_swapaxes (fun x ax => x.transpose 0 ax) (⟨List.range 6, [2, 3]⟩ : Arr Nat) 0 (-1)
+    = .ok ⟨[0, 3, 1, 4, 2, 5], [3, 2]⟩ := by decide
 
 end ArrModel.C06
